@@ -94,7 +94,7 @@ def run_sync(peer, sched, before=()):
     end before its deadline's last arrival, so that the single-threaded agent is free again)"""
     from gufo.snmp.sync_client import SnmpSession
     plans = list(before) + [sched]
-    state = {"k": 0}
+    state = {"k": 0, "mark": None}
 
     def script(dg):
         req = peer.decode(dg)
@@ -102,6 +102,8 @@ def run_sync(peer, sched, before=()):
             return agent_plan(peer, [], dg)
         k = min(state["k"], len(plans) - 1)
         state["k"] += 1
+        if k == len(plans) - 1:
+            state["mark"] = len(agent.sent)      # datagrams sent from here on belong to the measured request
         return agent_plan(peer, plans[k], dg)
     agent = e2e.ThreadAgent(script)
     try:
@@ -114,12 +116,15 @@ def run_sync(peer, sched, before=()):
             el = time.monotonic() - t0
     finally:
         agent.stop = True
-    return r, el
+    mark = state["mark"] if state["mark"] is not None else len(agent.sent)
+    actual = [(ts - t0) / TICK for ts in agent.sent[mark:mark + len(sched)]]
+    return r, el, actual
 
 
 async def run_async_one(peer, sched):
     from gufo.snmp.async_client import SnmpSession
     loop = asyncio.get_running_loop()
+    sent = []
 
     class Proto(asyncio.DatagramProtocol):
         def connection_made(self, transport):
@@ -127,12 +132,17 @@ async def run_async_one(peer, sched):
 
         def datagram_received(self, data, addr):
             acc = 0.0
-            for delay, dg in agent_plan(peer, sched, data):
+            plan = agent_plan(peer, sched, data)
+            rq = peer.decode(data)
+            measured = not (rq["pdu_type"] == 0 and not rq["varbinds"])
+            for delay, dg in plan:
                 acc += delay
-                loop.call_later(acc, self._send, dg, addr)
+                loop.call_later(acc, self._send, dg, addr, measured)
 
-        def _send(self, dg, addr):
+        def _send(self, dg, addr, measured):
             if not self.t.is_closing():
+                if measured:
+                    sent.append(time.monotonic())
                 self.t.sendto(dg, addr)
 
     transport, _ = await loop.create_datagram_endpoint(Proto, local_addr=("127.0.0.1", 0))
@@ -147,7 +157,7 @@ async def run_async_one(peer, sched):
             el = time.monotonic() - t0
     finally:
         transport.close()
-    return r, el
+    return r, el, [(ts - t0) / TICK for ts in sent]
 
 
 def run_tiny(mode, peer, timeout_s, stray):
@@ -252,25 +262,46 @@ def run(chk, model_ok=True):
                 ares = e2e.run_coro(all_async(), watchdog=10 + len(async_cases) * 1.0)
                 if ares is None:
                     # the event loop never came back: a call that neither returned nor timed out
-                    ares = [(("exc", "Hang", True), 99.0)] * len(async_cases)
+                    ares = [(("exc", "Hang", True), 99.0, [])] * len(async_cases)
             for c, f in futs:
-                c["result"], c["elapsed"] = f.result()
-        for c, (r, el) in zip(async_cases, ares):
-            c["result"], c["elapsed"] = r, el
+                c["result"], c["elapsed"], c["actual"] = f.result()
+        for c, (r, el, actual) in zip(async_cases, ares):
+            c["result"], c["elapsed"], c["actual"] = r, el, actual
+
+    def actual_schedule(c):
+        """(arrival in ticks as measured at the agent, kind) of the datagrams that were really sent, in order"""
+        return [(a, k) for a, (_, k) in zip(c.get("actual", []), c["sched"])]
+
+    def verdict_on(c):
+        """what the property determines from the ACTUAL arrival times (the agent may run late under load):
+        (outcome | None when an arrival is too close to the deadline to call, time of the deciding arrival)"""
+        for a, k in actual_schedule(c):
+            if a >= T_TICKS + 0.6:
+                break
+            if abs(a - T_TICKS) < 0.6:
+                return None, a
+            if k == "r":
+                return "delivered", a
+            if k == "g":
+                return "decodeerror", a
+        return "timeout", T_TICKS
 
     def judge(c):
         """None or a reason"""
-        want, t_end = property_verdict(c["sched"])
         got = outcome(c["result"])
         ticks = c["elapsed"] / TICK
         if ticks > T_TICKS + SLACK + 1:
             return (f"the call took {c['elapsed']:.3f}s with a timeout of {T_TICKS * TICK:.2f}s (ended as {got}); "
-                    f"the schedule was {c['sched']}")
+                    f"datagrams were sent at {[round(a * TICK, 3) for a, _ in actual_schedule(c)]} s, kinds {[k for _, k in c['sched']]}")
+        want, t_end = verdict_on(c)
+        if want is None:
+            return None          # an arrival within 30 ms of the deadline: either outcome is legitimate
         if got != want:
-            return (f"the call ended as {got} after {c['elapsed']:.3f}s, the schedule {c['sched']} determines {want}"
+            return (f"the call ended as {got} after {c['elapsed']:.3f}s; datagrams {[(round(a * TICK, 3), k) for a, k in actual_schedule(c)]} "
+                    f"(seconds after the request, kind) determine {want}"
                     + (f" (earlier calls on this session: {c['before']})" if c.get("before") else ""))
-        if want == "delivered" and abs(ticks - t_end) > SLACK + 1:
-            return f"reply due at {t_end * TICK:.2f}s was delivered after {c['elapsed']:.3f}s"
+        if want == "delivered" and ticks - t_end > SLACK + 1:
+            return f"the reply sent {t_end * TICK:.3f}s after the request was delivered only after {c['elapsed']:.3f}s"
         return None
 
     execute(cases)
@@ -328,21 +359,44 @@ def run(chk, model_ok=True):
                                    "timeout_ticks": T_TICKS, "mode": c["mode"], "session": c["peer"].label, "expected": why})
             else:
                 chk.notes.append(f"timing noise (not confirmed): {why[:160]}")
-    # correspondence: the model's end (kind, time) against the observed one
+    # correspondence: the model's end (kind, time) for the arrivals as they really happened (millisecond ticks)
     nd = 0
+
+    def model_line(c):
+        arr = ",".join(f"{max(0, int(round(a * TICK * 1000)))}:{k}" for a, k in actual_schedule(c)) or "-"
+        return f"recvsched {c['mode']} {int(T_TICKS * TICK * 1000)} 0 {arr}"
+
+    def disagrees(c, mo):
+        p = mo.split(" ")
+        got = outcome(c["result"])
+        want, _ = verdict_on(c)
+        if want is None:
+            return False
+        return not (len(p) == 3 and p[1] == got and abs(c["elapsed"] * 1000 - int(p[2])) <= (SLACK + 1) * TICK * 1000)
     if model_ok:
-        out, _, _ = common.run_model(lines)
-        for c, ln, mo in zip(cases, lines, out + ["<missing>"] * (len(lines) - len(out))):
-            p = mo.split(" ")
-            got = outcome(c["result"])
-            okk = len(p) == 3 and p[1] == got and abs(c["elapsed"] / TICK - int(p[2])) <= SLACK + 1
-            if not okk:
-                nd += 1
-                if nd == 1 and not chk.violations:
-                    chk.violation("correspondence", f"timing model: {ln} -> model {mo}, implementation {got} after {c['elapsed'] / TICK:.1f} ticks",
-                                  {"kind": "correspondence", "stream": "recvsched", "lines": [ln], "impl": [f"{got} {c['elapsed'] / TICK:.2f}"],
-                                   "model": [mo], "broken": ["correspondence recvsched: Lean Timing.syncRecv / asyncRecv vs /repo"]},
-                                  no_input=True)
+        mlines = [model_line(c) for c in cases]
+        out, _, _ = common.run_model(mlines)
+        for c, ln, mo in zip(cases, mlines, out + ["<missing>"] * (len(mlines) - len(out))):
+            if outcome(c["result"]) == "Hang" or not disagrees(c, mo):
+                continue
+            # timing: confirm on two fresh runs of the same schedule before calling it a disagreement
+            again = 0
+            for _ in range(2):
+                c2 = dict(c)
+                execute([c2])
+                mo2, _, _ = common.run_model([model_line(c2)])
+                if mo2 and disagrees(c2, mo2[0]):
+                    again += 1
+            if again < 2:
+                chk.notes.append(f"timing noise (model comparison not confirmed): {ln[:100]} -> {mo}")
+                continue
+            nd += 1
+            if nd == 1 and not chk.violations:
+                chk.violation("correspondence", f"timing model: {ln} -> model {mo}, implementation {outcome(c['result'])} after "
+                              f"{c['elapsed'] * 1000:.0f} ms (confirmed on 3 runs)",
+                              {"kind": "correspondence", "stream": "recvsched", "lines": [ln], "impl": [f"{outcome(c['result'])} {c['elapsed'] * 1000:.0f}ms"],
+                               "model": [mo], "broken": ["correspondence recvsched: Lean Timing.syncRecv / asyncRecv vs /repo"]},
+                              no_input=True)
     chk.coverage.update({
         "evaluations": len(cases) + n_tiny, "tiny_timeout_cases": n_tiny,
         "distinct_nontrivial": len(distinct),
@@ -351,13 +405,15 @@ def run(chk, model_ok=True):
                 "drips of non-matching datagrams every 1..5 ticks for three timeouts followed by the reply, garbage, mixtures; "
                 "sync SnmpSession (agent in a thread, 6 in parallel) and async SnmpSession (agent on the loop) x v1, v2c, v3 "
                 "(plain, SHA+AES, MD5+DES). No arrival is placed within one tick of the deadline. Oracle from the property: "
-                "duration <= timeout + 1.9 ticks, outcome determined by the first reply / garbage before the deadline; a failure "
-                "is re-run twice and reported only if it fails all three times. The same schedules run on the Lean timing model.",
+                "duration <= timeout + 1.9 ticks, outcome determined by the first reply / garbage that was REALLY sent before the "
+                "deadline (send times are recorded at the agent, so a late agent under load cannot cause an alarm; arrivals within "
+                "30 ms of the deadline are not judged); a failure is re-run twice and reported only if it fails all three times. "
+                "The arrivals as they happened (ms) run on the Lean timing model, disagreements are re-confirmed the same way.",
         "samples": [{"request": l, "impl": f"{outcome(c['result'])} {c['elapsed']:.3f}s"} for c, l in list(zip(cases, lines))[:5]],
         "outcome_histogram": dict(sorted(hist.items())),
         "max_elapsed_s": round(max(c["elapsed"] for c in cases), 3),
         "model_disagreements": nd,
-        "traces_validated_against_impl": len(lines) if model_ok else 0,
+        "traces_validated_against_impl": len(cases) if model_ok else 0,
     })
     chk.assumptions += ["wall-clock scheduling noise below one tick (50 ms); failures are re-confirmed before being reported",
                         "the model's processing time d is taken as 0 ticks in the comparison"]
